@@ -188,7 +188,7 @@ func HarnessC04(fam, nT, nV, convCode, form, sv, mode int) {
 		w.NilPtrOnFail = true
 	}
 	if mode&128 != 0 {
-		w.ErrKind = hPick("errKind", 4)
+		w.ErrKind = hPick("errKind", 5)
 	}
 	vnNote(w.String() + fmt.Sprintf(" errKind=%d", w.ErrKind))
 	vnOnDivergence("", "")
